@@ -1165,7 +1165,10 @@ func (sw *SW) opRead(st sim.Step) {
 
 // ---- free storage ---------------------------------------------------------------------------------
 
-// st.add_assigner A=callerKind(0 contract owner, else stranger) I=[assigner, individualKind, totalKind]
+// st.add_assigner A=callerKind(0 contract owner, else stranger) I=[assigner, individualKind, totalKind, keyKind]
+//
+// keyKind (absent = 0): 0 the assigner's first key, 1 its second key, 2 the key that is *not* registered now (rotation K1->K2 / K2->K1),
+// 3 the key registered now (limits-only update). A re-registration under another key must keep the name's redeemed amount and nonces.
 func (sw *SW) opAddAssigner(st sim.Step) {
 	if len(sw.Assigners) == 0 {
 		return
@@ -1173,14 +1176,42 @@ func (sw *SW) opAddAssigner(st sim.Step) {
 	a := sw.Assigners[abs(st.Int(0, 0))%int64(len(sw.Assigners))]
 	ind := []float64{1, 5, 100, 101, 0.5}[abs(st.Int(1, 1))%5]
 	tot := []float64{5, 20, 10000, 10001, 2}[abs(st.Int(2, 1))%5]
+	av := sw.view().Assigners[a.Name]
+	key := a.PK
+	switch abs(st.Int(3, 0)) % 4 {
+	case 1:
+		key = a.PK2
+	case 2:
+		if av != nil {
+			key, _ = a.otherThan(av.PublicKey)
+		}
+	case 3:
+		if av != nil && (av.PublicKey == a.PK || av.PublicKey == a.PK2) {
+			key = av.PublicKey
+		}
+	}
 	from, pk := sw.W.OwnerID, ""
 	if st.A != 0 {
 		from, pk = sw.Stranger.ID, sw.Stranger.PK
 		sw.W.Tr.Fault("assigner_added_by_stranger")
 	}
-	o := sw.call(from, pk, "add_free_storage_assigner", map[string]any{"name": a.Name, "public_key": a.PK, "individual_limit": ind, "total_limit": tot}, 0)
+	rotated := st.A == 0 && av != nil && av.PublicKey != key
+	used := rotated && (av.Redeemed > 0 || len(av.Nonces) > 0)
+	if rotated {
+		sw.W.Tr.Fault("assigner_key_rotated")
+	}
+	if used {
+		sw.W.Tr.Fault("assigner_key_rotated_after_redemptions")
+	}
+	o := sw.call(from, pk, "add_free_storage_assigner", map[string]any{"name": a.Name, "public_key": key, "individual_limit": ind, "total_limit": tot}, 0)
 	if o.Class == ledger.Success {
 		sw.probeFirst("add_free_storage_assigner")
+		if rotated {
+			sw.rotGen[a.Name]++
+		}
+		if used {
+			sw.W.Tr.Probe("assigner_key_rotated_after_redemptions")
+		}
 	}
 }
 
@@ -1219,6 +1250,13 @@ func (sw *SW) opFreeAlloc(st sim.Step) {
 		_ = json.Unmarshal([]byte(inp.Marker), &mk)
 		if c := sw.actorByID(mk.Recipient); c != nil {
 			sw.W.Tr.Fault("free_marker_replayed")
+			if at, ok := sw.redeemedAt[in]; ok && sw.rotGen[a.Name] > at.gen {
+				// redeemed under an earlier registration of the name
+				sw.W.Tr.Fault("free_marker_replayed_after_key_rotation")
+				if av := vw.Assigners[a.Name]; av != nil && av.PublicKey == at.key {
+					sw.W.Tr.Fault("free_marker_replayed_after_key_rotated_back") // its signature verifies again
+				}
+			}
 			sw.call(c.ID, c.PK, "free_allocation_request", in, 0)
 		}
 		return
@@ -1237,6 +1275,9 @@ func (sw *SW) opFreeAlloc(st sim.Step) {
 	sw.nonceCtr[a.Name]++
 	m := freeMarkerJSON{Assigner: a.Name, Recipient: rec.ID, FreeTokens: tokens, Nonce: sw.nonceCtr[a.Name], Blobbers: ids}
 	signKeys := a.Keys
+	if av != nil {
+		signKeys = a.keysFor(av.PublicKey) // the assigner signs with the key the owner registered last
+	}
 	sender := rec
 	valid := av != nil
 	switch fault {
@@ -1267,6 +1308,12 @@ func (sw *SW) opFreeAlloc(st sim.Step) {
 		m.Assigner = "nobody"
 		valid = false
 		sw.W.Tr.Fault("free_marker_unknown_assigner")
+	case 11: // signed with the assigner's other key (rotated out, or never registered)
+		if av != nil {
+			_, signKeys = a.otherThan(av.PublicKey)
+			valid = false
+			sw.W.Tr.Fault("free_marker_signed_with_other_key")
+		}
 	case 9: // nonce of an earlier redeemed marker, freshly signed otherwise
 		if av != nil && len(av.Nonces) > 0 {
 			m.Nonce = av.Nonces[int(abs(st.Int(4, 0)))%len(av.Nonces)]
@@ -1310,6 +1357,12 @@ func (sw *SW) opFreeAlloc(st sim.Step) {
 	if o.Class == ledger.Success {
 		sw.probeFirst("free_allocation")
 		sw.redeemed[m.Assigner] = append(sw.redeemed[m.Assigner], string(raw))
+		if av != nil && m.Assigner == a.Name {
+			sw.redeemedAt[string(raw)] = redeemInfo{av.PublicKey, sw.rotGen[a.Name]}
+			if sw.rotGen[a.Name] > 0 {
+				sw.W.Tr.Probe("free_grant_after_key_rotation")
+			}
+		}
 	}
 }
 
